@@ -123,6 +123,52 @@ Proof.
   simpl. split; [intros [H|[H _]]; [discriminate|auto] | auto].
 Qed.
 
+(* lookup after a fold of puts over data with unique keys, onto ANY accumulator *)
+Lemma nodup_get_tail {T} k0 (e0 : T) (t : list (Z * T)) : NoDup (map fst ((k0, e0) :: t)) -> m_get t k0 = None.
+Proof.
+  intros Hnd. inversion Hnd as [|? ? Hnotin _]; subst. destruct (m_get t k0) as [e|] eqn:Eg; auto.
+  exfalso. apply Hnotin. apply m_get_In in Eg. change k0 with (fst (k0, e)). now apply in_map.
+Qed.
+
+Lemma fold_put_get2 {T} (P : Z * entry -> bool) (F : Z * entry -> T) : forall data acc,
+  NoDup (map fst data) -> forall k,
+    m_get (fold_left (fun m ke => if P ke then m else m_put (fst ke) (F ke) m) data acc) k
+    = match m_get data k with
+      | Some e => if P (k, e) then m_get acc k else Some (F (k, e))
+      | None => m_get acc k
+      end.
+Proof.
+  induction data as [|[k0 e0] t IH]; intros acc Hnd k; [reflexivity|].
+  pose proof (nodup_get_tail k0 e0 t Hnd) as Htail.
+  assert (Hnd' : NoDup (map fst t)) by (now inversion Hnd).
+  cbn [fold_left fst snd m_get]. destruct (P (k0, e0)) eqn:EP.
+  - rewrite (IH acc Hnd' k). destruct (Z.eqb_spec k0 k) as [He|He]; [|reflexivity].
+    subst k0. rewrite Htail, EP. reflexivity.
+  - rewrite (IH _ Hnd' k). rewrite m_get_put. destruct (Z.eqb_spec k0 k) as [He|He].
+    + subst k0. rewrite Htail, EP. reflexivity.
+    + reflexivity.
+Qed.
+
+Lemma get_s_load_gen m (data : list (Z * entry)) now k : NoDup (map fst data) ->
+  m_get (s_load m data now) k
+  = match m_get data k with
+    | Some (v, d) => if expired now d then m_get m k else Some (v, d)
+    | None => m_get m k
+    end.
+Proof.
+  intros Hnd. unfold s_load.
+  etransitivity;
+    [exact (fold_put_get2 (fun ke => expired now (snd (snd ke))) (@snd Z entry) data m Hnd k)|].
+  destruct (m_get data k) as [[v d]|]; reflexivity.
+Qed.
+
+Lemma get_data_map_eq (data : list (Z * entry)) k : NoDup (map fst data) -> m_get (data_map data) k = m_get data k.
+Proof.
+  intros Hnd. unfold data_map.
+  etransitivity; [exact (fold_put_get2 (fun _ => false) (@snd Z entry) data [] Hnd k)|].
+  destruct (m_get data k); reflexivity.
+Qed.
+
 (* ---------- declarative reading ---------- *)
 Section Decl.
 Variable fl : Z -> Z.
@@ -208,13 +254,30 @@ Proof.
   - intros k v d H. apply get_data_map in H; auto. rewrite Forall_forall in Hpos. apply (Hpos _ H).
 Qed.
 
+Lemma J_load m hc (data : list (Z * entry)) t : J m hc t -> NoDup (map fst data) -> Forall (fun ke => 0 <= snd (snd ke)) data ->
+  J (s_load m data t)
+    (fun k => match m_get (data_map data) k with
+              | Some (v, d) => if expired t d then hc k else Some (v, d)
+              | None => hc k
+              end) t.
+Proof.
+  intros (H1 & H2 & H3 & H4) Hnd Hpos. split; [now apply ksorted_s_load|split; [|split]].
+  - intros k e. rewrite get_s_load_gen, get_data_map_eq by exact Hnd.
+    destruct (m_get data k) as [[v d]|]; [destruct (expired t d)|]; auto.
+  - intros k v d. rewrite get_s_load_gen, get_data_map_eq by exact Hnd.
+    destruct (m_get data k) as [[v0 d0]|]; [destruct (expired t d0)|]; auto.
+  - intros k v d. rewrite get_data_map_eq by exact Hnd.
+    destruct (m_get data k) as [[v0 d0]|] eqn:Eg; [destruct (expired t d0)|]; eauto.
+    intros H; inversion H; subst. apply m_get_In in Eg. rewrite Forall_forall in Hpos. apply (Hpos _ Eg).
+Qed.
+
 Lemma J_step m hc t0 now o : J m hc t0 -> t0 <= now -> 0 < now -> op_wf o ->
   J (fst (sstep fl defttl m now o)) (fun k => ls_step defttl k (hc k) (now, o, snd (sstep fl defttl m now o))) now.
 Proof.
   intros HJ0 Hle Hpos Hwf. pose proof (J_mono _ _ _ _ HJ0 Hle) as HJ. clear HJ0.
   assert (Hne : forall (v : Z) ttl, 0 <= snd (v, new_expire defttl now ttl)).
   { intros v ttl. simpl. destruct (new_expire_cases defttl now ttl); lia. }
-  destruct o as [k v ttl|k v ttl|k v ttl|k|k| | | | |data]; simpl.
+  destruct o as [k v ttl|k v ttl|k v ttl|k|k| | | | |data|data]; simpl.
   - eapply J_ext; [|apply (J_put _ _ _ k _ HJ (Hne v ttl))]. intros k'; reflexivity.
   - destruct (m_get m k) eqn:Eg; simpl.
     + eapply J_ext; [|exact HJ]. reflexivity.
@@ -235,6 +298,7 @@ Proof.
   - eapply J_ext; [|apply (J_sweep _ _ _ HJ)]. reflexivity.
   - eapply J_ext; [|exact HJ]. reflexivity.
   - destruct Hwf as [Hnd Hp]. now apply J_restore.
+  - destruct Hwf as [Hnd Hp]. eapply J_ext; [|apply (J_load _ _ data _ HJ Hnd Hp)]. intros k; reflexivity.
 Qed.
 
 Definition last_time (t0 : Z) (tops : list (Z * op)) : Z := fold_left (fun _ x => fst x) tops t0.
